@@ -77,6 +77,19 @@ def run(ctx, rep):
                     rep.violation("C20.2", cons, "element-wise comparison with a bare zip(): a longer argument list whose prefix matches compares equal", f"{eq.path}:{n.lineno}")
             elif isinstance(n, ast.Call) and isinstance(n.func, (ast.Name, ast.Attribute)) and (getattr(n.func, "id", None) or getattr(n.func, "attr", "")) == "zip_longest":
                 rep.ok("C20.2", cls_construct(ix, k, "__eq__:pairing"), "zip_longest", f"{eq.path}:{n.lineno}")
+        # one-sided iteration: a loop over one operand's sequence only
+        for n in nodes:
+            if isinstance(n, ast.comprehension) or isinstance(n, ast.For):
+                it = n.iter
+                names_ = {m.id for m in ast.walk(it) if isinstance(m, ast.Name)}
+                calls_ = {(getattr(m.func, "id", None) or getattr(m.func, "attr", "")) for m in ast.walk(it) if isinstance(m, ast.Call)}
+                if selfn in names_ and othern not in names_ and not ({"zip_longest", "zip"} & calls_):
+                    lens = any(isinstance(m, ast.Call) and isinstance(m.func, ast.Name) and m.func.id == "len" for m in nodes)
+                    cons = cls_construct(ix, k, "__eq__:pairing")
+                    if lens:
+                        rep.ok("C20.2", cons, "iteration over one operand with an explicit length comparison", f"{eq.path}:{it.lineno}")
+                    else:
+                        rep.violation("C20.2", cons, f"`{ast.unparse(it)}` iterates over this operand's elements only: extra elements of the other operand are never looked at, so A == B and B == A can differ (not symmetric)", f"{eq.path}:{it.lineno}")
         # ---- C20.3
         cons = cls_construct(ix, k, "__eq__:total")
         body = [s for s in eq.node.body if not (isinstance(s, ast.Expr) and isinstance(s.value, ast.Constant))]
